@@ -22,7 +22,8 @@ MCInit == Init /\ oracle \in [Pairs -> Digests]
 FeedHash == \E p \in Pairs : HashFact(p[1], p[2], oracle[p]) /\ UNCHANGED oracle
 FeedCat  == \E k \in MCKinds : CatFact(Prefix(k), W, Prefix(k) \o W) /\ UNCHANGED oracle
 \* a library call whose result the specification accepts (no state change)
-Observe  == \E k \in MCKinds, d \in Digests : Report(k, W, d) /\ UNCHANGED oracle
+Observe  == \/ \E k \in MCKinds, d \in Digests : Report(k, W, d) /\ UNCHANGED oracle
+            \/ \E d \in Digests, f \in {<<>>, W} : Find({W}, d, f, <<>>) /\ UNCHANGED oracle
 
 MCNext == FeedHash \/ FeedCat \/ Observe
 
@@ -38,5 +39,8 @@ Complete == \A k \in MCKinds, d \in Digests :
 \* whenever the oracle tells the two pre-images apart
 Distinguishes == \A j, k \in MCKinds, d \in Digests :
               (Accepts(k, W, d) /\ Pre(j) \in DOMAIN H /\ oracle[Pre(j)] # oracle[Pre(k)]) => d # H[Pre(j)]
+\* a lookup among {W} finds W exactly when asked for the oracle hash of W's wire bytes
+FindSound == \A d \in Digests, f \in {<<>>, W} :
+              (<<256, W>> \in DOMAIN H /\ FindAccepts({W}, d, f, <<>>)) => (f = W <=> d = oracle[<<256, W>>])
 ASSUME Separated /\ ScriptTags /\ MCKinds \subseteq Kinds
 =============================================================================
